@@ -1076,6 +1076,12 @@ func (ds *AnySource) ConfigurePulseLengths(nsamp, npre int) error {
 		nsamp < npre+1 { // require at least one post trigger sample
 		return fmt.Errorf("ConfigurePulseLengths nsamp %v, npre %v are invalid", nsamp, npre)
 	}
+	// Check every channel before changing any, so that a refusal leaves all channels with equal lengths.
+	for _, dsp := range ds.processors {
+		if err := dsp.checkPulseLengths(nsamp, npre); err != nil {
+			return err
+		}
+	}
 	for _, dsp := range ds.processors {
 		if err := dsp.ConfigurePulseLengths(nsamp, npre); err != nil {
 			return err
